@@ -278,3 +278,46 @@ Example C18_gen_nonvacuous :
   /\ Hull.bbox Qops [[1; 5; 2]; [0; 7; 2]; [3; 6; -1]]%Q = Ok ([0; 5; -1], [3; 7; 2])%Q.
 Proof. repeat split; vm_compute; reflexivity. Qed.
 
+From NV Require Import Model.Fit Gen.Fitting Proofs.GenTieFit.
+From NV Require Import Model.Derivs Proofs.GenTieDerivCpts.
+From NV Require Import Proofs.GenTieArr4 Proofs.GenTieDerivSurf.
+From NV Require Import Model.KnotRefine Proofs.GenTieRefine.
+From NV Require Import Model.Eval Gen.Evaluators Proofs.GenTieEvalLib Proofs.GenTieEvalCurve Proofs.GenTieEvalSurf Proofs.GenTieEvalVol.
+From NV Require Import Model.Derivs Gen.HelpersC Proofs.GenTieBinom Proofs.GenTieBasisAll Proofs.GenTieEvalDerivCurve Proofs.GenTieEvalDerivCurve2.
+From NV Require Import Proofs.GenTieEvalDerivSurf Proofs.GenTieEvalDerivSurfRat Proofs.GenTieEvalDerivSurf2.
+From NV Require Import Model.Weights Gen.Compatibility Proofs.GenTieCompat.
+From NV Require Import Model.Layout Gen.Compatibility Proofs.GenTieFlip.
+From NV Require Import Model.Layout Model.Voxel Model.Hull Gen.OperationsInternal Proofs.GenTieFindCtrlpts.
+
+From NV Require Import Model.Layout Model.Hull Gen.OperationsInternal Proofs.GenTieFindCtrlpts.
+
+(* [G] the same against Model/Hull.v (C18: the active control point window) *)
+Theorem C18_gen_find_ctrlpts_curve_R : forall (p : nat) (U : list R) (P : list (list R)) (t : R),
+  p < length P -> length P <= length U ->
+  OperationsInternal.find_ctrlpts_curve Rops t (mk_curveobj (Z.of_nat p) U P) (OperationsInternal.find_ctrlpts_curve__default_find_span_func Rops)
+  = GOk (Hull.find_ctrlpts_curve Rops p U P t).
+Proof. exact find_ctrlpts_curve_tie_hull_R. Qed.
+Print Assumptions C18_gen_find_ctrlpts_curve_R.
+Theorem C18_gen_find_ctrlpts_curve_Q : forall (p : nat) (U : list Q) (P : list (list Q)) (t : Q),
+  p < length P -> length P <= length U ->
+  OperationsInternal.find_ctrlpts_curve Qops t (mk_curveobj (Z.of_nat p) U P) (OperationsInternal.find_ctrlpts_curve__default_find_span_func Qops)
+  = GOk (Hull.find_ctrlpts_curve Qops p U P t).
+Proof. exact find_ctrlpts_curve_tie_hull_Q. Qed.
+Print Assumptions C18_gen_find_ctrlpts_curve_Q.
+
+(* [G] the same against Model/Hull.v (C18) *)
+Theorem C18_gen_find_ctrlpts_surface_R : forall (pu pv : nat) (Uu Uv : list R) (su sv : nat) (V : list (list (list R))) (P : list (list R)) (tu tv : R),
+  is_view2d V su sv P -> pu < su -> pv < sv -> su <= length Uu -> sv <= length Uv ->
+  OperationsInternal.find_ctrlpts_surface Rops tu tv (mk_surfobj (Z.of_nat pu) (Z.of_nat pv) Uu Uv (Z.of_nat su) (Z.of_nat sv) V)
+    (OperationsInternal.find_ctrlpts_surface__default_find_span_func Rops)
+  = GOk (Hull.find_ctrlpts_surface Rops pu pv Uu Uv su sv P tu tv).
+Proof. exact find_ctrlpts_surface_tie_hull_R. Qed.
+Print Assumptions C18_gen_find_ctrlpts_surface_R.
+Theorem C18_gen_find_ctrlpts_surface_Q : forall (pu pv : nat) (Uu Uv : list Q) (su sv : nat) (V : list (list (list Q))) (P : list (list Q)) (tu tv : Q),
+  is_view2d V su sv P -> pu < su -> pv < sv -> su <= length Uu -> sv <= length Uv ->
+  OperationsInternal.find_ctrlpts_surface Qops tu tv (mk_surfobj (Z.of_nat pu) (Z.of_nat pv) Uu Uv (Z.of_nat su) (Z.of_nat sv) V)
+    (OperationsInternal.find_ctrlpts_surface__default_find_span_func Qops)
+  = GOk (Hull.find_ctrlpts_surface Qops pu pv Uu Uv su sv P tu tv).
+Proof. exact find_ctrlpts_surface_tie_hull_Q. Qed.
+Print Assumptions C18_gen_find_ctrlpts_surface_Q.
+
